@@ -58,6 +58,9 @@ def bounded_search(tier):
     from ..runner import replay_requests
     sets = [(1, [[0.1, 0, 0], [0.3, 0, 0], [0.6, 0, 0], [0.9, 0, 0]]),
             (2, [[0.2, 0.2, 0], [0.7, 0.3, 0], [0.4, 0.8, 0], [0.8, 0.75, 0], [0.5, 0.5, 0]])]
+    # tiny periodic sets: a cell borders periodic images of itself (faces with right == left and a shift)
+    sets += [(1, [[0.3, 0, 0]]), (1, [[0.2, 0, 0], [0.7, 0, 0]]), (2, [[0.3, 0.6, 0]]), (2, [[0.2, 0.3, 0], [0.7, 0.6, 0]]), (3, [[0.3, 0.4, 0.6]]),
+             (3, [[0.2, 0.3, 0.4], [0.7, 0.6, 0.8]]), (3, [[0.2, 0.3, 0.4], [0.7, 0.6, 0.8], [0.5, 0.1, 0.9]])]
     reqs = []
     for dim, gens in sets:
         for periodic in (False, True):
@@ -83,9 +86,10 @@ def run(tier, seed):
         if x.name.endswith("witness.contracts_are_satisfiable"):
             x.backend = "guard"
             if x.status == "discharged": x.status = "vacuity-ok"
-    obs, efns = accessor_obligations("C12")
+    got, lost = runner.unit_or_undecided("C12.neighbour_ids.unit_not_evaluated", "E2", "voronoi_cell::VoronoiCell::{neighbour_ids, face_indices, faces}", lambda: accessor_obligations("C12"))
+    obs, efns = got if got is not None else ([], [])
     smt.discharge_all(obs, tier)
-    results += [runner.from_smt(o) for o in obs]
+    results += [runner.from_smt(o) for o in obs] + lost
     cases, bad = bounded_search(tier)
     for x in results:
         if x.status == "refuted":
@@ -93,7 +97,7 @@ def run(tier, seed):
             x.replay = {"reproduced": bad is not None, "search": "%d masked builds through the public API" % cases, "mismatch": bad}
     results.append(Result("C12.bounded.real_builds_satisfy_the_connectivity_sentences", "R", "discharged" if bad is None else "refuted", 0.0, "replay",
                           "" if bad is None else repr(bad), "Voronoi::build_partial -> finalize / face_indices / neighbour_ids (public API, real crate)",
-                          bounded="4 generators 1D and 5 generators 2D, every non-empty mask, periodic and not: %d builds" % cases,
+                          bounded="4 generators 1D, 5 generators 2D and 1-3 generators in 1D/2D/3D, every non-empty mask, periodic and not: %d builds" % cases,
                           counterexample=bad, replay={"reproduced": bad is not None, "mismatch": bad}))
     meta = {
         "level": "proof", "functions": slices + efns,
@@ -147,7 +151,8 @@ def accessor_obligations(prefix):
     left, right, shift = f.f["left"], f.f["right"], f.f["shift"]
     listed = Or(Eq(left, c), And(right.some, Eq(right.val, c), Not(shift.some)))
     # preconditions: the cell knows its own index (Verus: finalize's postcondition), the face is one of its listed faces, a face separates two different cells
-    pre = [Eq(me.f["idx"], c), listed, Implies(right.some, tm.Ne(left, right.val))]
+    # an UNSHIFTED face separates two different cells; a periodic face may join a cell with an image of itself (left == right with a shift)
+    pre = [Eq(me.f["idx"], c), listed, Implies(And(right.some, Not(shift.some)), tm.Ne(left, right.val))]
     P = pre + ctx.assume + ctx.ok
     lab = u.label + " / filter_map closure"
     obs.append(Obligation(prefix + ".neighbour_ids.requires_satisfiable", P, TRUE, lab, expect_sat=True))
